@@ -214,24 +214,50 @@ Section Dir.
       else if Lfn.ev_is_dir ev && child_nonempty then (Err EDirectoryIsNotEmpty, ss)
       else (Ok tt, delete_entry ss ev)).
 
+  (* DirEntry::has_exact_name: the entry is stored under exactly this spelling - the long-name units equal
+     name.encode_utf16(), or, for an entry without a long name, the rendered short name (short_name.as_bytes(), e.g.
+     "B.TXT") equals the UTF-8 bytes of the name *)
+  Definition has_exact_name (ev : Lfn.entry_view) (name : str) : bool :=
+    match Lfn.ev_lfn ev with
+    | [] => str_eqb (Lfn.ev_short ev) (utf8_encode name)
+    | lfn => str_eqb lfn (utf16_encode name)
+    end.
+
+  (* the tail of rename_internal: the deletion loop over the source slots, then write_entry of
+     e.data.renamed(short_name) under the new name (which may fail: D20) *)
+  Definition rename_rewrite (k : dkind) (free : nat) (ss : slots) (e : Lfn.entry_view) (dst : str) (short_name : list N)
+    : dres unit :=
+    let ss1 := delete_entry ss e in
+    let '(w, ss2) := write_entry k free ss1 dst (renamed (entry_data ss e) short_name) in
+    (do _ <- w; Ok tt, ss2).
+
   (* rename_internal with dst_dir = self.  ORDER of the code: find the source ("." and ".." directory entries are
-     refused: InvalidInput), check the destination, delete the source slots, then write the new entry (which may fail:
-     D20). *)
+     refused: InvalidInput), check the destination, delete the source slots, then write the new entry.
+     When the destination name resolves to an existing entry: another entry -> AlreadyExists; the SOURCE ENTRY ITSELF
+     (is_same_entry: equal entry_pos, i.e. the same short slot) -> nothing happens only if the entry is stored under
+     exactly this spelling (has_exact_name); otherwise (another case of the long name, or the entry's own alias) the
+     entry is REWRITTEN with the new long name and the SAME raw short name (the copy of e.raw_short_name()), through
+     the same delete-then-write path.  (This branch used to be an unconditional no-op: D22, fixed in 46d26a5.)
+     Outside this layer (tree level, other directories): for a source DIRECTORY the walk from dst_dir up the ".."
+     entries that refuses a move into itself (InvalidInput, before the existence check), and after a successful write
+     the update of the moved directory's own ".." entry. *)
   Definition rename_in_dir (k : dkind) (free : nat) (ss : slots) (src dst : str) : dres unit :=
     lift (find_entry ss src None) ss (fun e =>
       if is_special e then (Err EInvalidInput, ss) else
       lift (check_for_existence ss dst None) ss (fun r =>
         match r with
         | Exists dst_e =>
-          (* is_same_entry: equal entry_pos, i.e. the same short slot *)
-          if Lfn.ev_end e =? Lfn.ev_end dst_e then (Ok tt, ss) else (Err EAlreadyExists, ss)
-        | Fresh a =>
-          let ss1 := delete_entry ss e in
-          let '(w, ss2) := write_entry k free ss1 dst (renamed (entry_data ss e) a) in
-          (do _ <- w; Ok tt, ss2)
+          if negb (Lfn.ev_end e =? Lfn.ev_end dst_e) then (Err EAlreadyExists, ss)
+          else if has_exact_name e dst then (Ok tt, ss)
+          else rename_rewrite k free ss e dst (Lfn.ev_raw_name e)
+        | Fresh a => rename_rewrite k free ss e dst a
         end)).
 
-  (* rename_internal into another directory: (source slots, destination slots) *)
+  (* rename_internal into another directory: (source slots, destination slots).
+     NOT part of these two slot lists (tree level): a source DIRECTORY is first checked against dst_dir and its
+     ancestors (walk up the ".." entries; InvalidInput when the moved directory is met), and after the new entry is
+     written the ".." entry INSIDE the moved directory is set to the first cluster of dst_dir (0 for the root) - a
+     write into a third directory, the moved one. *)
   Definition rename_across (kd : dkind) (freed : nat) (src_ss dst_ss : slots) (src dst : str) : res unit * (slots * slots) :=
     match find_entry src_ss src None with
     | Ok e =>
